@@ -130,6 +130,8 @@ def gen_scenario(rng, ix):
                     files[l] = (m, d)
                 else:
                     files[l] = gen_file(rng)
+    if bk != "absent" and rng.random() < 0.25:     # a leftover temporary name from a backup that was cut
+        files["BakTmp"] = gen_file(rng) if rng.random() < 0.5 else (0o755, b"")
     pk = rng.choice(["complete", "complete", "complete", "partial", "bad-exe", "absent"])
     if pk != "absent":
         for l in PKG:
@@ -178,17 +180,18 @@ class Layout:
             # paths so that the failing-input search can still run on the implementation
             self.path = dict(zip(FIXED, P_SYS + P_PKG + [P_BACKUP + "/Package/azure-proxy-agent", P_BACKUP + "/Package/proxy-agent.json",
                                                         P_BACKUP + "/Package/ebpf_cgroup.o", P_BACKUP + "/azure-proxy-agent.service"]))
+            self.path["BakTmp"] = P_BACKUP + "/Package/azure-proxy-agent.tmp"
             self.backup_dir, self.service, self.unit_dir = P_BACKUP, "azure-proxy-agent", "/usr/lib/systemd/system/"
             self.setup_dir, self.tool_log, self.extras_wf = SETUP_DIR, P_TOOL_LOG, True
             return
-        exprs = ["map (render harness_setup_dir) fixed_locs", "backup_dir harness_setup_dir",
+        exprs = ["map (render harness_setup_dir) (fixed_locs ++ [BakTmp])", "backup_dir harness_setup_dir",
                  "Consts.setup_service_name", "Consts.shared_service_config_folder_path",
                  "harness_setup_dir", "tool_log_prefix harness_setup_dir",
                  "forallb (wf_loc harness_setup_dir) %s" % clist(
                      ["(%s %s)" % (c, cb(p)) for c, p in EXTRA_POOL])]
         r = coq_eval_retry(ctx, exprs, name="layout")
         tos = lambda l: bytes(l).decode()
-        self.path = dict(zip(FIXED, [tos(x) for x in r[0]]))
+        self.path = dict(zip(FIXED + ["BakTmp"], [tos(x) for x in r[0]]))
         self.backup_dir = tos(r[1])
         self.service = tos(r[2])
         self.unit_dir = tos(r[3])
@@ -240,12 +243,12 @@ def model_expr(sc, lay, accepts):
 
 
 def model_keys(sc):
-    return sorted(sc["files"], key=lambda k: (k not in FIXED, k))
+    return sorted(sc["files"], key=lambda k: (k not in FIXED and k != "BakTmp", k))
 
 
 def model_steps(sc, lay, res):
     """parsed run_obs output -> list of dict(rc, files{path:[mode,sha]}, running, enabled, events)"""
-    watch = FIXED + ["X%d" % i for i in sc["extras"]]
+    watch = FIXED + ["BakTmp"] + ["X%d" % i for i in sc["extras"]]
     pool = [[sc["files"][k][0], sha(sc["files"][k][1])] for k in model_keys(sc)]
     out = []
     for rc, (obs, running, enabled), events in res:
@@ -428,10 +431,6 @@ def known_filter(f):
         return ("id=C17-K1 class=KnownClass_C17_agent_not_runnable: backup; install; restore does not reinstate the files "
                 "when the installed agent executable does not answer --version (restore panics after `systemctl stop`, "
                 "the service stays stopped)")
-    if f.get("why", "").endswith("[C17-K2]"):
-        return ("id=C17-K2 class=KnownClass_C17_backup_cut: `backup` killed while saving the executable or the unit file (its last "
-                "two copies) leaves a backup that `restore` accepts (the backed-up executable is the marker): restore then panics or "
-                "exits 1 after `systemctl stop` with a mix of versions, or installs an incomplete unit file")
     return None
 
 
@@ -513,17 +512,6 @@ def kill_points(trace):
     return pts
 
 
-def crash_state_class(init, s1):
-    """C17-K2: the cut backup holds the marker executable and the config and eBPF object are saved
-    completely (content), but the backup as a whole is not complete"""
-    f0, f1 = init["files"], s1["files"]
-    bak = [P_BACKUP + "/Package/azure-proxy-agent", P_BACKUP + "/Package/proxy-agent.json",
-           P_BACKUP + "/Package/ebpf_cgroup.o", P_BACKUP + "/azure-proxy-agent.service"]
-    same = lambda b, p: b in f1 and p in f0 and f1[b][1] == f0[p][1]
-    complete = all(b in f1 and f1[b] == f0[p] for b, p in zip(bak, P_SYS))
-    return bak[0] in f1 and same(bak[1], P_SYS[1]) and same(bak[2], P_SYS[2]) and not complete
-
-
 def crash_property(ir):
     """after backup(killed); install; restore: either everything is the pre-install version and the
     service runs, or restore refused without touching anything"""
@@ -538,8 +526,6 @@ def crash_property(ir):
     same = [p for p, x, y in zip(P_SYS, four(pre_r), four(post_r)) if x == y]
     why = ("backup killed part-way; install; restore: restore (exit %d) neither refused nor reinstated the version: %s differ from before the upgrade, "
            "%s still the newer ones, service running=%s" % (s_r["rc"], diff, same, post_r["running"]))
-    if crash_state_class(init, s_b["state"]):
-        why += " [C17-K2]"
     return why
 
 
@@ -568,7 +554,7 @@ def crash_leg(ctx, lay, binary, accepts, with_model, rng):
         inputs.append(x)
     impl = run_impl(ctx, inputs)
     ctx.log("crash points inside backup: %d bases, %d kill points executed" % (len(bases), len(scenarios)))
-    path2key = {lay.path[k]: k for k in FIXED}
+    path2key = {lay.path[k]: k for k in FIXED + ["BakTmp"]}
     for i in range(len(EXTRA_POOL)):
         path2key[lay.render("X%d" % i)] = "X%d" % i
     # model: the modelled crash states of backup, and install; restore continued from the OBSERVED crash state
@@ -590,7 +576,7 @@ def crash_leg(ctx, lay, binary, accepts, with_model, rng):
             exprs.append("crash_scenario %s" % clist(["(%s, (%d%%N, %s))" % (lay.coq_loc(k), sc["files"][k][0], cb(sc["files"][k][1])) for k in keys], "(loc * file)"))
     mres = coq_eval_retry(ctx, exprs, shard=max(8, len(exprs) // 12 + 1), timeout=1500, name="crash") if exprs else []
     disagreements, failures = [], []
-    stats = {"bases": len(bases), "kill_points": len(scenarios), "restore_refused": 0, "reinstated": 0, "known_class_K2": 0, "killed": 0}
+    stats = {"bases": len(bases), "kill_points": len(scenarios), "restore_refused": 0, "reinstated": 0, "neither": 0, "killed": 0}
     for n, (sc, cont) in enumerate(zip(scenarios, conts)):
         ir = impl[sc["id"]]
         case = {"id": sc["id"], "classes": sc["classes"], "running": True, "enabled": True, "cmds": sc["cmds"],
@@ -603,7 +589,7 @@ def crash_leg(ctx, lay, binary, accepts, with_model, rng):
         summ = [{"args": s["args"], "rc": s["rc"], "calls": [c[0] for c in s["calls"]]} for s in ir["steps"]]
         if why:
             failures.append({"case": case, "why": why, "impl": summ})
-            stats["known_class_K2"] += why.endswith("[C17-K2]")
+            stats["neither"] += 1
         else:
             pr, po = ir["steps"][1]["state"], ir["steps"][2]["state"]
             stats["reinstated" if ir["steps"][2]["calls"] else "restore_refused"] += 1
@@ -614,19 +600,19 @@ def crash_leg(ctx, lay, binary, accepts, with_model, rng):
             keys = model_keys(sc)
             pool = [[sc["files"][k][0], sha(sc["files"][k][1])] for k in keys]
             s1 = ir["steps"][0]["state"]["files"]
-            obs = [s1.get(lay.path[l]) for l in BAK]
+            obs = [s1.get(lay.path[l]) for l in BAK + ["BakTmp"]]
             ok = False
             for j, st in enumerate(states):
                 exp = [(pool[o[1]] if o is not None else None) for o in st]
-                rest = [i for i in range(4) if obs[i] != exp[i]]
+                rest = [i for i in range(5) if obs[i] != exp[i]]
                 if not rest:
                     ok = True
-                elif len(rest) == 1 and j < 4 and states[j + 1][rest[0]] is not None and exp[rest[0]] is None:
+                elif len(rest) == 1 and j < 5 and states[j + 1][rest[0]] is not None and exp[rest[0]] is None:
                     full = pool[states[j + 1][rest[0]][1]]        # the copy in flight: created empty, or filled (any mode)
                     if obs[rest[0]] is not None and obs[rest[0]][1] in (full[1], sha(b"")):
                         ok = True
             if not ok:
-                diffs.append("step 0 backup (killed on entering %s): the backup folder %s is not a modelled crash state of backup (completed copies in the order config, eBPF object, executable, unit + one in flight)" % (sc["kill_at"][:80], obs))
+                diffs.append("step 0 backup (killed on entering %s): the backup folder %s is not a modelled crash state of backup (operations in the order config, eBPF object, unit, executable -> .tmp, rename .tmp -> executable; + one copy in flight)" % (sc["kill_at"][:80], obs))
             # (b) install; restore from the observed crash state
             msteps = model_steps(cont, lay, mres[2 * n])
             sub = {"init": ir["steps"][0]["state"], "steps": ir["steps"][1:]}
@@ -832,7 +818,7 @@ def main(argv):
         binary = build_setup_binary(ctx)
         path2key = {}
         lay = Layout(ctx)
-        for k in FIXED:
+        for k in FIXED + ["BakTmp"]:
             path2key[lay.path[k]] = k
         for i in range(len(EXTRA_POOL)):
             path2key[lay.render("X%d" % i)] = "X%d" % i
